@@ -1423,6 +1423,14 @@ class _Run:
                     else:
                         break
                 return sym.call("list::nth_back", [lst, k], "", 0)
+            if name in ("cosmwasm_std::SubMsg::new", "cosmwasm_std::SubMsg::reply_always", "cosmwasm_std::SubMsg::reply_on_error",
+                        "cosmwasm_std::SubMsg::reply_on_success") and args:
+                # the library's SubMsg constructors are the struct literal they abbreviate (cosmwasm-std results.rs):
+                # new(m) = {id: 0, msg: m.into(), gas_limit: None, reply_on: Never}, reply_*(m, id) likewise
+                ron = {"new": "Never", "reply_always": "Always", "reply_on_error": "Error", "reply_on_success": "Success"}[nm]
+                idv = args[1] if nm != "new" and len(args) > 1 else sym.intc(0, "u64")
+                return sym.agg("cosmwasm_std::SubMsg", "SubMsg", ("id", "msg", "gas_limit", "reply_on"),
+                               (idv, a0, sym.agg("std::option::Option", "None", (), ()), sym.agg("cosmwasm_std::ReplyOn", ron, (), ())))
             if name in PURE_LIB:
                 return sym.op(PURE_LIB[name], *args)
             if name == "std::boxed::Box::new_uninit":
